@@ -173,7 +173,7 @@ def gen_add(rng, bt, seq=None, tiny=False):
     types = SHOWN_TYPES if rng.random() < 0.85 else SHOWN_TYPES + ERROR_TYPES
     ies = [pick_ie(rng, types, bt) for _ in range(nf)]
     nrec = rng.choice([0, 1, 1, 1, 2, 3])
-    recs = [",".join(value_for(rng, ie) for ie in ies) or "-" for _ in range(nrec)]
+    recs = [",".join(value_for(rng, ie) for ie in ies) or "." for _ in range(nrec)]
     return "store add data %s %s %s" % (header(rng, seq), ",".join(ie.tok() for ie in ies) or "-", ";".join(recs) or "-")
 
 
@@ -319,7 +319,7 @@ def flood_session(rng, bt, with_reset):
 def gen_cases(rng, tier):
     bt = G.by_type()
     sessions = []
-    nsmall, nbound, nflood = (400, 2, 3) if tier == "quick" else (6000, 8, 24)
+    nsmall, nbound, nflood = (400, 2, 3) if tier == "quick" else (30000, 16, 48)
     for i in range(nflood):
         sessions.append(flood_session(rng, bt, with_reset=(i % 3 == 2)))
     for _ in range(nbound):
